@@ -316,10 +316,10 @@ def project_chain(st, pattern, length):
             st.outcomes["violation"] += 1
             st.violation(f"C20:project-chain-stuck:{pattern}:after-tag-{tags[(i - 1) % len(tags)] if i else 'final'}", case,
                          {"exit": o.exit, "crashed": o.crashed, "log": [m for _l, m in o.log if "No match" in m or "Invalid" in m][:2],
-                          "setup.py": world.read_tree(".")["setup.py"].decode()})
+                          "setup.py": world.read_tree(".")["setup.py"].decode("utf-8", "replace")})
             break
         new = o.new_version
-        text = world.read_tree(".")["setup.py"].decode()
+        text = world.read_tree(".")["setup.py"].decode("utf-8", "replace")
         m = re.fullmatch(r'setup\(version="(.*)"\)\n# tag (.*) \n', text)
         if not m or m.group(2) != new:
             st.outcomes["violation"] += 1
@@ -382,7 +382,7 @@ def dispatch(st, pattern, tier):
             continue
         if o_real.exit == 0:
             new = o_real.new_version
-            text = world.read_tree(".")["a.txt"].decode()
+            text = world.read_tree(".")["a.txt"].decode("utf-8", "replace")
             m = re.fullmatch(r"ver=(.*);\n(?:pep=(.*);\n)?", text)
             if not m or m.group(1) != new:
                 st.outcomes["violation"] += 1
